@@ -340,6 +340,20 @@ inductive PutRequest where
   | writeChip (a : PutArgs)
 deriving DecidableEq, Repr, Inhabited
 
+/-- the addressing arguments of a request -/
+def PutRequest.args : PutRequest → PutArgs
+  | .call a _ => a
+  | .write a => a
+  | .writeRaw a => a
+  | .writeChip a => a
+
+/-- raw or formatted, as the entry point says -/
+def PutRequest.rawFlag : PutRequest → Bool
+  | .call _ raw => raw
+  | .write _ => false
+  | .writeRaw _ => true
+  | .writeChip _ => false
+
 /-- base.py:768 -/
 def writerWrite (segs : List Bool) (a : PutArgs) : Except Err PutSel := writerCall segs a false
 /-- base.py:800 -/
